@@ -33,25 +33,65 @@ MANIFEST_ENTRY = {
 
 RULE = ("whole runs: seeded configurations of harness.wholerun.make_config (placeholder / granular infrastructure, "
         "persistent / intermittent sources, weather, daylight, 1-2 crews, P_none / P_OGI / P_air+follow-up / "
-        "P_fix+follow-up), every (program, simulation): all timeseries columns + all emission-record columns; "
+        "P_fix+follow-up) plus the shapes of make_variant (OGI + screening + follow-up in one program, two screening "
+        "methods on one follow-up method, surveys longer than a day, five methods, two simulations), "
+        "every (program, simulation): all timeseries columns + all emission-record columns; "
         "non-trivial/distinct by (program kind, #days, #emissions, #rolls, #program repairs, #flags); a case is "
         "counted only when the model drew exactly the rolls the run drew")
 
 
-def configs(ctx, n):
+VARIANTS = ["base", "base", "fix", "mix", "two", "slowfu", "slowogi", "all", "sims2"]
+
+
+def make_variant(rng, kind, quick):
+    """the generator of harness.wholerun plus program shapes it does not produce: a routine OGI method next
+    to a screening method and its follow-up ("mix"), two screening methods bound to one follow-up method
+    ("two"), surveys longer than a work day with two crews ("slowfu", "slowogi"), five methods in one
+    program ("all"), two simulations ("sims2")"""
+    import copy
+
     from harness import wholerun as W
 
+    ov = {}
+    if quick:
+        ov["ndays"] = rng.choice([120, 200, 400])
+    cfg = W.make_config(rng, **ov)
+    M = cfg["methods"]
+    none = {"name": "P_none", "methods": []}
+    if kind == "fix":
+        if len(cfg["programs"]) < 4:
+            cfg["programs"].append({"name": "P_fix", "methods": ["FIX", "OGI_FU2"]})
+    elif kind == "mix":
+        cfg["programs"] = [{"name": "P_mix", "methods": ["OGI", "AIR", "OGI_FU"]}, none]
+    elif kind == "two":
+        M["AIR2"] = copy.deepcopy(M["AIR"])
+        M["AIR2"].update({"surveys_per_year": 6, "mdl": 0.5, "reporting_delay": 1})
+        M["AIR2"]["follow_up"]["threshold"] = 0.0
+        cfg["programs"] = [{"name": "P_two", "methods": ["AIR", "AIR2", "OGI_FU"]}, none]
+    elif kind == "slowfu":
+        M["OGI_FU"].update({"survey_time": 500, "crew_count": 2})
+        M["AIR"].update({"crew_count": 2, "surveys_per_year": 12, "mdl": 0.5})
+        M["AIR"]["follow_up"]["threshold"] = 0.0
+        cfg["programs"] = [{"name": "P_air", "methods": ["AIR", "OGI_FU"]}, none]
+    elif kind == "slowogi":
+        M["OGI"].update({"survey_time": 700, "crew_count": 2, "surveys_per_year": 6})
+        cfg["programs"] = [{"name": "P_OGI", "methods": ["OGI"]}, none]
+    elif kind == "all":
+        cfg["programs"] = [{"name": "P_all", "methods": ["OGI", "AIR", "OGI_FU", "FIX", "OGI_FU2"]}, none]
+    elif kind == "sims2":
+        cfg["n_sims"] = 2
+    cfg["sim_trace"] = True
+    cfg["_variant"] = kind
+    return cfg
+
+
+def configs(ctx, n):
     out = []
     for k in range(n):
         seed = ctx.rng.randrange(1 << 30)
         rng = random.Random(seed)
-        ov = {}
-        if ctx.quick:
-            ov["ndays"] = rng.choice([120, 200, 400])
-        cfg = W.make_config(rng, **ov)
-        if k % 2 == 1 and len(cfg["programs"]) < 4:
-            cfg["programs"].append({"name": "P_fix", "methods": ["FIX", "OGI_FU2"]})
-        cfg["sim_trace"] = True
+        kind = VARIANTS[k % len(VARIANTS)]
+        cfg = make_variant(rng, kind, ctx.quick)
         cfg["_verif_seed"] = seed
         out.append(cfg)
     return out
@@ -123,7 +163,7 @@ def analyse(ctx, cfg, res):
             st = mutate_selftest(case)
             if st is not None:
                 ctx.count("selftest_perturbed_roll_noticed" if st else "selftest_perturbed_roll_NOT_noticed")
-    ctx.sample({"whole_run": {k: cfg[k] for k in ("granular", "start", "end", "n_sites", "consider_weather", "daylight")},
+    ctx.sample({"whole_run": {k: cfg[k] for k in ("granular", "start", "end", "n_sites", "consider_weather", "daylight", "_variant")},
                 "programs": [p["name"] for p in cfg["programs"]], "cfg_seed": cfg.get("_verif_seed")}, cap=8)
 
 
@@ -134,7 +174,7 @@ def run(ctx):
     ctx.assumptions.append("SIM: wrapper events of install_sim_wrappers are observation only (they read values the "
                            "simulator computed, never draw random numbers)")
     core.lean_stage(ctx, MODULE, FILE, drivers=["drv_sim"])
-    cfgs = configs(ctx, ctx.pick(6, 36))
+    cfgs = configs(ctx, ctx.pick(9, 135))
 
     def one(cfg):
         return cfg, W.run_config(cfg)
